@@ -103,8 +103,9 @@ def find_function(relfile, qualname):
     for p in parts:
         found = None
         for ch in ast.iter_child_nodes(node):
-            if isinstance(ch, (ast.FunctionDef, ast.AsyncFunctionDef, ast.ClassDef)) and ch.name == p:
-                found = ch
+            if isinstance(ch, (ast.FunctionDef, ast.AsyncFunctionDef, ast.ClassDef)) and ch.name == p \
+                    and found is None:
+                found = ch          # the first definition (a property's getter precedes its setter)
         if found is None:
             raise Unsupported(f'{relfile}:{qualname} not found in the current tree (contract detached)')
         node = found
@@ -881,11 +882,24 @@ class Executor:
             return getattr(base, node.attr)
         raise Unsupported(f'cannot resolve {ast.unparse(node)}')
 
+    def narrow_optional(self, test, frame, truth):
+        """after `if x is not None:` / `if x is None:` the Optional local x is its value in the non-None branch"""
+        if isinstance(test, ast.Compare) and isinstance(test.left, ast.Name) and len(test.ops) == 1 and \
+                isinstance(test.comparators[0], ast.Constant) and test.comparators[0].value is None:
+            is_not = isinstance(test.ops[0], ast.IsNot)
+            is_ = isinstance(test.ops[0], ast.Is)
+            if (is_not and truth) or (is_ and not truth):
+                v = frame.env.get(test.left.id)
+                if isinstance(v, VOpt):
+                    frame.env[test.left.id] = v.val()
+
     def st_If(self, s, frame):
         v = self.eval(s.test, frame)
         if self.decide(self.truth(v)):
+            self.narrow_optional(s.test, frame, True)
             self.exec_block(s.body, frame)
         else:
+            self.narrow_optional(s.test, frame, False)
             self.exec_block(s.orelse, frame)
 
     def st_Assign(self, s, frame):
@@ -1034,10 +1048,10 @@ class Executor:
                 if isinstance(n, ast.Call) and isinstance(n.func, ast.Attribute):
                     if n.func.attr not in PURE_METHODS:
                         touch(n.func.value, call=True)
-                    # a call may also mutate container / record arguments that are passed in
-                    for a in list(n.args) + [k.value for k in n.keywords]:
-                        if isinstance(a, (ast.Name, ast.Attribute)):
-                            touch(a, call=True)
+                        # a call may also mutate container / record arguments that are passed in
+                        for a in list(n.args) + [k.value for k in n.keywords]:
+                            if isinstance(a, (ast.Name, ast.Attribute)):
+                                touch(a, call=True)
                 if isinstance(n, ast.Call) and isinstance(n.func, ast.Name):
                     for a in list(n.args) + [k.value for k in n.keywords]:
                         if isinstance(a, (ast.Name, ast.Attribute)):
@@ -1260,7 +1274,11 @@ class Executor:
             base = self.eval(tgt.value, frame)
             if isinstance(base, VRec):
                 if tgt.attr not in st.store[base.rid]:
-                    # property setter?  try inlining through the class
+                    # a property setter: inline its body from the real class
+                    setter = self.find_setter(base.sort, tgt.attr)
+                    if setter is not None:
+                        self.inline_call(setter, [base, v], {}, frame, key=f'{base.sort.name}.{tgt.attr}.setter')
+                        return
                     raise Unsupported(f'store to undeclared field {base.sort.name}.{tgt.attr}')
                 decl = base.sort.fields[tgt.attr]
                 v = self.coerce(v, decl)
@@ -1342,6 +1360,11 @@ class Executor:
     def truth(self, v):
         if isinstance(v, Alias):
             v = self.st.read(v.loc)
+        if isinstance(v, VRec) and v.sort.pyclass is not None:
+            # `if obj:` on an instance is True only while its class defines neither __bool__ nor __len__
+            for dunder in ('__bool__', '__len__'):
+                if self.find_method(v.sort, dunder) is not None:
+                    raise Unsupported(f'truthiness of {v.sort.name}: the class defines {dunder}')
         return v.truth()
 
     # ---- expressions
@@ -1423,6 +1446,9 @@ class Executor:
                 return self.inline_call(prop, [base], {}, frame, key=f'{base.sort.name}.{attr}')
             raise Unsupported(f'attribute {base.sort.name}.{attr} not declared')
         if isinstance(base, VRef):
+            am = getattr(frame.contract, 'attr_models', {}).get((base.sort.name, attr))
+            if am is not None:
+                return am(self, frame, base)
             if attr in base.sort.attrs:
                 return st.heap_get(base, attr)
             raise Unsupported(f'attribute {attr} of {base.sort.name} is not declared in the contract')
@@ -1435,6 +1461,19 @@ class Executor:
             # attribute access on an Optional: None -> AttributeError is outside the model
             return self.getattr(base.val(), attr, frame, node)
         raise Unsupported(f'attribute {attr} on {type(base).__name__}')
+
+    def find_setter(self, sort: RecS, name):
+        if sort.pyclass is None:
+            return None
+        relfile, clsname = sort.pyclass
+        src, tree = load_module_ast(relfile)
+        for cls in ast.walk(tree):
+            if isinstance(cls, ast.ClassDef) and cls.name == clsname:
+                for fn in cls.body:
+                    if isinstance(fn, ast.FunctionDef) and fn.name == name and any(
+                            isinstance(d, ast.Attribute) and d.attr == 'setter' for d in fn.decorator_list):
+                        return fn, module_of(relfile), relfile
+        return None
 
     def is_property(self, fnode):
         for d in fnode.decorator_list:
@@ -1590,6 +1629,9 @@ class Executor:
             if isinstance(op, ast.Mult):
                 return a * b
             raise Unsupported(f'int op {type(op).__name__}')
+        for x in (a, b):
+            if isinstance(x, VRef) and x.sort.name == 'Bytes' and isinstance(op, (ast.Add, ast.Mod)):
+                return x.sort.fresh('bytes')        # opaque byte strings: concatenation / formatting is opaque
         if isinstance(a, VRec):
             dunder = {ast.BitAnd: '__and__', ast.BitOr: '__or__', ast.Sub: '__sub__', ast.Add: '__add__'}.get(type(op))
             m = self.find_method(a.sort, dunder) if dunder else None
@@ -1866,6 +1908,8 @@ class Executor:
         if isinstance(e.func, ast.Attribute):
             base = self.eval(e.func.value, frame)
             meth = e.func.attr
+            if isinstance(base, VOpt) and isinstance(base.sort.inner, RefS):
+                base = base.val()       # a method call on None is an AttributeError outside the model
             if isinstance(base, (VRec, VRef)):
                 sname = base.sort.name
                 target = self.registry.get((sname, meth)) or c.calls.get(f'{sname}.{meth}')
@@ -2078,6 +2122,8 @@ class Executor:
         if txt in tm:
             return tm[txt]
         if isinstance(a, ast.Name):
+            if a.id in tm:
+                return tm[a.id]
             return {'int': INT, 'bool': BOOL}.get(a.id)
         if isinstance(a, ast.Subscript) and isinstance(a.value, ast.Name):
             head = a.value.id
